@@ -355,7 +355,11 @@ func evaluate(d driver, hist []int, log *crashlog.Log, base *crashlog.Image, c c
 	// the blob hub keeps every storage that received a blob alive in a process-global map
 	defer blobserver.VerifResetHubs()
 	streamLenient := map[string]bool{last.b.Name: true}
-	// the blob of the in-flight operation may be present (intact) or absent
+	// the blob of the in-flight operation may be present (intact) or absent -- unless the
+	// in-flight operation is a receive of a blob that an earlier, completed operation of the
+	// history had already stored (a duplicate upload): that blob was acknowledged and a crash
+	// during the second receive must not lose it
+	ackedBefore := !last.remove && ref.Has(last.b)
 	resolve := func(phase string) *finding {
 		rc, size, err := sto.Fetch(ctx, last.b.Ref)
 		if err == nil {
@@ -370,6 +374,9 @@ func evaluate(d driver, hist []int, log *crashlog.Log, base *crashlog.Image, c c
 			}
 			ref.Put(last.b)
 		} else if errors.Is(err, os.ErrNotExist) {
+			if ackedBefore {
+				return fail(phase, "acknowledged-blob-lost-by-duplicate-receive", fmt.Sprintf("%s was stored and acknowledged earlier in the history; after a crash during a second receive of it Fetch says not found", last.b.Name))
+			}
 			ref.Del(last.b)
 		} else {
 			return fail(phase, "fetch-error", fmt.Sprintf("Fetch(%s) after recovery: %v", last.b.Name, err))
